@@ -22,6 +22,7 @@ def params : Params :=
     maxRefs := Gen.C02.maxRefs,
     flagCompressed := Gen.C02.flagCompressed, flagEncrypted := Gen.C02.flagEncrypted, flagError := Gen.C02.flagError,
     ldHeader := Gen.C02.ldHeader, ldLenBits := Gen.C02.ldLenBits, ldReadLo := Gen.C02.ldReadLo,
-    ldReadSub := Gen.C02.ldReadSub, nilBodyEncodes := Gen.C02.nilBodyEncodes }
+    ldReadSub := Gen.C02.ldReadSub, ldWriteAdd := Gen.C02.ldWriteAdd, ldWriteHi := Gen.C02.ldWriteHi,
+    ldWriteHeader := Gen.C02.ldWriteHeader, ldRetAdd := Gen.C02.ldRetAdd, nilBodyEncodes := Gen.C02.nilBodyEncodes }
 
 end Fatchoy.C02
